@@ -66,19 +66,68 @@ Proof.
 Qed.
 
 
-(** with a non-negative start the range test means what it says *)
-Lemma range_nonneg : forall s e,
-  int64 s -> int64 e -> 0 <= s -> range_bad s e = false -> span_ok s e = true.
+(** the range test means what it says: a range that passes has a non-negative
+    start and spans at most 257 blocks, as integers *)
+Lemma range_ok : forall s e,
+  int64 s -> int64 e -> range_bad s e = false -> 0 <= s /\ span_ok s e = true.
 Proof.
-  intros s e Hs He H0 Hr. unfold range_bad in Hr. apply orb_false_elim in Hr. destruct Hr as [H1 H2].
-  rewrite wrap64_id in H1 by (unfold int64, two63 in *; lia).
-  unfold span_ok. apply andb_true_intro; split; lia.
+  intros s e Hs He Hr. unfold range_bad in Hr.
+  apply orb_false_elim in Hr. destruct Hr as [Hr H3].
+  apply orb_false_elim in Hr. destruct Hr as [H1 H2].
+  assert (H0 : 0 <= s) by lia. assert (Hse : s <= e) by lia.
+  rewrite wrap64_id in H3 by (unfold int64, two63 in *; lia).
+  split; [exact H0|]. unfold span_ok. apply andb_true_intro; split; lia.
 Qed.
 
 (** ** serving side with the real blockchain module *)
 
 Lemma zseq_len : forall n s, length (zseq s n) = n.
 Proof. induction n; cbn; intros; [reflexivity|]. rewrite IHn. reflexivity. Qed.
+
+(** wrap64 stays in int64 *)
+Lemma wrap64_range : forall z, int64 (wrap64 z).
+Proof.
+  intros z. unfold int64, wrap64, two63.
+  pose proof (Z.mod_pos_bound (z + 9223372036854775808) (2 * 9223372036854775808) ltac:(lia)). lia.
+Qed.
+
+(** for Start <= End (int64) the wrapped difference is the difference or negative *)
+Lemma wrap64_diff : forall s e,
+  int64 s -> int64 e -> s <= e -> wrap64 (e - s) = e - s \/ wrap64 (e - s) < 0.
+Proof.
+  intros s e Hs He Hse. destruct (Z_lt_le_dec (e - s) two63) as [Hlt|Hge].
+  - left. apply wrap64_id. unfold int64, two63 in *. lia.
+  - right. unfold int64, wrap64, two63 in *.
+    replace (e - s + 9223372036854775808) with ((e - s - 9223372036854775808) + 1 * (2 * 9223372036854775808)) by lia.
+    rewrite Z.mod_add by lia. rewrite Z.mod_small by lia. lia.
+Qed.
+
+(** ProcGetBlockDetailsMsg, any int64 request (the callers behind the queue: rpc,
+    consensus, the p2p handlers): an error or 1..1000 blocks, never a panic,
+    never an allocation beyond 1000 pointers *)
+Lemma chain_get_total : forall tip cap s e,
+  int64 s -> int64 e -> int64 tip -> max_per_time <= cap ->
+  chain_get tip cap s e = Done CErr
+  \/ exists hs, chain_get tip cap s e = Done (CBlocks hs) /\ (1 <= length hs <= 1000)%nat.
+Proof.
+  intros tip cap s e Hs He Ht Hcap. unfold chain_get.
+  destruct (tip <? s) eqn:E1; [left; reflexivity|].
+  destruct (e <? s) eqn:E2; [left; reflexivity|].
+  destruct ((max_per_time <=? wrap64 (e - s)) || (wrap64 (e - s) <? 0)) eqn:E3; [left; reflexivity|].
+  apply orb_false_elim in E3. destruct E3 as [E3 E4]. unfold max_per_time in *.
+  destruct (wrap64_diff s e Hs He ltac:(lia)) as [Hw|Hw]; [|lia].
+  rewrite Hw in E3.
+  set (en := if tip <? e then tip else e).
+  assert (Hen : s <= en <= e) by (unfold en; destruct (tip <? e) eqn:E5; lia).
+  rewrite (wrap64_id (en - s)) by (unfold int64, two63 in *; lia).
+  rewrite (wrap64_id (en - s + 1)) by (unfold int64, two63 in *; lia).
+  unfold go_make. unfold max_len.
+  replace ((en - s + 1 <? 0) || (35184372088832 <? en - s + 1)) with false
+    by (symmetry; apply orb_false_intro; lia).
+  replace (cap <? en - s + 1) with false by (symmetry; lia).
+  destruct (s <? 0); [left; reflexivity|]. right. eexists. split; [reflexivity|].
+  rewrite zseq_len. lia.
+Qed.
 
 Lemma chain_get_small : forall tip cap s e,
   int64 s -> int64 e -> int64 tip -> 0 <= s -> span_ok s e = true -> 257 <= cap ->
@@ -89,7 +138,7 @@ Proof.
   destruct (tip <? s) eqn:E1; [split; [discriminate|exact I]|].
   destruct (e <? s) eqn:E2; [split; [discriminate|exact I]|].
   rewrite (wrap64_id (e - s)) by (unfold int64, two63 in *; lia).
-  destruct (max_per_time <=? e - s) eqn:E3; [split; [discriminate|exact I]|].
+  destruct ((max_per_time <=? e - s) || (e - s <? 0)) eqn:E3; [split; [discriminate|exact I]|].
   set (en := if tip <? e then tip else e).
   assert (Hen : s <= en <= e) by (unfold en; destruct (tip <? e) eqn:E4; lia).
   rewrite (wrap64_id (en - s)) by (unfold int64, two63 in *; lia).
@@ -101,38 +150,51 @@ Proof.
   destruct (s <? 0); split; try discriminate; exact I.
 Qed.
 
-Definition sreq_nonneg (r : rd (option (Z * Z))) : bool :=
-  match r with RdMsg (Some (s, _)) => 0 <=? s | _ => true end.
-
 Definition sreq_int64 (r : rd (option (Z * Z))) : Prop :=
   match r with RdMsg (Some (s, e)) => int64 s /\ int64 e | _ => True end.
+Definition sreq_new_int64 (r : rd (Z * Z)) : Prop :=
+  match r with RdMsg (s, e) => int64 s /\ int64 e | _ => True end.
 
-Lemma serve_old_real_partial : forall tip cap r,
-  int64 tip -> 257 <= cap -> sreq_int64 r -> sreq_nonneg r = true ->
-  serve_survives (serve_old (chain_get tip cap) r) = true
-  /\ forall s e, fst (serve_old (chain_get tip cap) r) = Some (s, e) -> span_ok s e = true.
+Lemma serve_range_real : forall tip cap old s e,
+  int64 tip -> 257 <= cap -> int64 s -> int64 e ->
+  serve_survives (serve_range (chain_get tip cap) old s e) = true
+  /\ forall s' e', fst (serve_range (chain_get tip cap) old s e) = Some (s', e') -> 0 <= s' /\ span_ok s' e' = true.
 Proof.
-  intros tip cap [| |[[s e]|]] Ht Hcap Hi Hn; cbn [serve_old]; try (split; [reflexivity|cbn; discriminate]).
-  cbn in Hi, Hn. destruct Hi as [Hs He]. assert (H0 : 0 <= s) by lia.
+  intros tip cap old s e Ht Hcap Hs He.
   unfold serve_range. destruct (range_bad s e) eqn:Er; [split; [reflexivity|cbn; discriminate]|].
-  pose proof (range_nonneg s e Hs He H0 Er) as Hsp.
+  destruct (range_ok s e Hs He Er) as [H0 Hsp].
   destruct (chain_get_small tip cap s e Hs He Ht H0 Hsp Hcap) as [Hd Hp].
   split.
   - unfold serve_survives. destruct (chain_get tip cap s e) as [[|hs]|w|w|]; cbn; try reflexivity; try congruence.
-    destruct hs; reflexivity.
+    destruct hs; [reflexivity|]. destruct old; reflexivity.
   - intros s' e' H.
-    destruct (chain_get tip cap s e) as [[|hs]|w|w|]; cbn in H; try (injection H as <- <-; exact Hsp).
-    destruct hs; cbn in H; injection H as <- <-; exact Hsp.
+    destruct (chain_get tip cap s e) as [[|hs]|w|w|]; cbn in H; try (injection H as <- <-; split; assumption).
+    destruct hs; [cbn in H; injection H as <- <-; split; assumption|].
+    destruct old; cbn in H; injection H as <- <-; split; assumption.
 Qed.
 
-(** the request that ends the process: start = -2^40, end = 2^63-1 on a chain of 11 blocks *)
-Definition req_wrap : rd (option (Z * Z)) := RdMsg (Some (- 1099511627776, two63 - 1)).
+Lemma serve_old_real : forall tip cap r,
+  int64 tip -> 257 <= cap -> sreq_int64 r ->
+  serve_survives (serve_old (chain_get tip cap) r) = true
+  /\ forall s e, fst (serve_old (chain_get tip cap) r) = Some (s, e) -> 0 <= s /\ span_ok s e = true.
+Proof.
+  intros tip cap [| |[[s e]|]] Ht Hcap Hi; cbn [serve_old]; try (split; [reflexivity|cbn; discriminate]).
+  cbn in Hi. destruct Hi as [Hs He]. apply serve_range_real; assumption.
+Qed.
 
-Lemma serve_old_real_dies :
-  sreq_int64 req_wrap /\
-  serve_old (chain_get 10 2147483648) req_wrap = (Some (- 1099511627776, two63 - 1), Died)
-  /\ span_ok (- 1099511627776) (two63 - 1) = false.
-Proof. split; [cbn; unfold int64, two63; lia|]. vm_compute. auto. Qed.
+Lemma serve_new_real : forall tip cap r,
+  int64 tip -> 257 <= cap -> sreq_new_int64 r ->
+  serve_survives (serve_new (chain_get tip cap) r) = true
+  /\ forall s e, fst (serve_new (chain_get tip cap) r) = Some (s, e) -> 0 <= s /\ span_ok s e = true.
+Proof.
+  intros tip cap [| |[s e]] Ht Hcap Hi; cbn [serve_new].
+  - split; [reflexivity|cbn; discriminate].
+  - apply serve_range_real; try assumption; unfold int64, two63; lia.
+  - cbn in Hi. destruct Hi as [Hs He]. apply serve_range_real; assumption.
+Qed.
+
+(** the request that used to end the process: start = -2^40, end = 2^63-1 *)
+Definition req_wrap : rd (option (Z * Z)) := RdMsg (Some (- 1099511627776, two63 - 1)).
 
 (** ** peer-info handlers *)
 
